@@ -10,7 +10,7 @@ EXPLANATION = (
     "record element itself for its own namespace and its name is built from that prefix and the local name; and that "
     "extensions are read from the root element's namespace declarations. On today's tree all lookups are name-only and four "
     "use descendants(): each is a listed known finding (foreign-namespace elements with standard local names can shadow "
-    "standard content); any new lookup of that kind is a new violation. Not decided: values of extension attributes "
+    "standard content); any new lookup of that kind is a new violation. No reader function navigates the XML tree by position (next sibling, first child, n-th child), so a foreign element placed between two standard ones cannot hide either; two positional controls must fire and a by-name control stay silent. Not decided: values of extension attributes "
     "round-trip (C01/C04 clauses).")
 
 
@@ -18,10 +18,13 @@ def run(ctx):
     ctx.rule("R1", "every element lookup in the reader is namespace-aware (known finding per site today)")
     ctx.rule("R2", "lookups for children of a known parent use children(), not descendants() (4 known findings today)")
     ctx.rule("R3", "prototype prefix looked up on the record element for its own namespace; vector entries filtered by vectorChild + type=Structure; extensions from root namespaces")
+    ctx.rule("R4", "no reader function finds XML content by position (next sibling, first child, n-th child): foreign elements may sit anywhere")
     prog, info = load_program("lib", "e57")
     ctx.configs["lib"] = info
     ctx.cfg = "lib"
     xml_rules.namespace_rules(ctx, prog, "R1", "R2", "R3")
     import simple_rules
     simple_rules.lookup_by_position(ctx, prog, "R3")
+    xml_rules.no_positional_navigation(ctx, prog, "R4")
     ctx.cfg = None
+    xml_rules.positional_controls(ctx, "R4")
